@@ -20,6 +20,11 @@ def run(repo, rep):
     rep.clause("C10-e", "stripe heights handed up a cascade stay even whenever any operator of that cascade resamples nearest-neighbour: the decision scans every scheduler op, filtered only by cascade identity and resampling mode")
     rep.undecided("that input box and pads equal the receptive field for all shapes; rolling-buffer sufficiency; every stripe height the scheduler proposes")
     rep.assume("stripe steps are positive and the depth-slice list is ascending")
+    from .shared import mirror_families, module_axis_lint
+
+    module_axis_lint(repo, rep, "C10-c", ['high_level_command_stream', 'high_level_command_stream_generator', 'cascade_builder', 'scheduler'])
+
+    mirror_families(repo, rep, "C10-c", {('cascade_builder', '', 'sched_op.parent_op'): 'operand roles', ('high_level_command_stream_generator', '', 'sched_op'): 'operand roles', ('scheduler', '', 'self.parent_op'): 'operand roles', ('scheduler', 'self', 'ps.primary_op'): 'scheduler op fields'})
     hg = repo.mod("high_level_command_stream_generator")
     f = hg.func("generate_high_level_commands_for_sched_op")
     site = f"{HG}:generate_high_level_commands_for_sched_op"
